@@ -86,7 +86,8 @@ func genC04(seed uint64, tier string) Scenario {
 			cid++
 			var text string
 			if g.Pct(6) && i >= nCalls-2 {
-				text = g.Pick(`[]`, `"a.b.M"`, `5`, `null`, `{"method":5}`, `{"method":null}`, `{}`, `{"Method":"a.b.M"}`,
+				text = g.Pick(`{"method":"org.varlink.service.GetInfo"} x`, `{"method":"a.b.M"}{"method":"a.b.M"}`, `{"method":"a.b.M"}]`, `{"method":"a.b.M"},`, `null null`, `{"method":"org.varlink.service.GetInfo"}garbage`,
+					`[]`, `"a.b.M"`, `5`, `null`, `{"method":5}`, `{"method":null}`, `{}`, `{"Method":"a.b.M"}`,
 					`{"method":["a.b.M"]}`, `{"method":{"x":1}}`, `true`, `{"method":"a.b.M","more":"yes"}`, `{"method":"a.b.M"`, ``)
 			} else {
 				method := genMethodString(g, s.Service)
